@@ -11,13 +11,13 @@ import subprocess
 import sys
 
 ROOT = os.path.dirname(os.path.dirname(os.path.abspath(__file__)))
-WT = "/tmp/verif_seed_wt"
+WT = "/tmp/verif_seed_wt_%d" % os.getpid()
 
 
 def sh(cmd, **kw):
     env = dict(os.environ)
-    env["VERIF_EVIDENCE_DIR"] = "/tmp/verif_seed_evidence"
-    env["VERIF_OUT_DIR"] = "/tmp/verif_seed_out"
+    env["VERIF_EVIDENCE_DIR"] = "/tmp/verif_seed_evidence_%d" % os.getpid()
+    env["VERIF_OUT_DIR"] = "/tmp/verif_seed_out_%d" % os.getpid()
     env["VERIF_REPO"] = WT
     return subprocess.run(cmd, shell=True, stdout=subprocess.PIPE, stderr=subprocess.STDOUT, text=True, env=env, **kw)
 
@@ -28,7 +28,7 @@ def restore():
 
 def main():
     names = sys.argv[1:] or sorted(d for d in os.listdir(os.path.join(ROOT, "seeded")) if os.path.isdir(os.path.join(ROOT, "seeded", d)))
-    res_path = os.path.join(ROOT, "seeded", "RESULTS.json")
+    res_path = os.environ.get("VERIF_SEED_RESULTS") or os.path.join(ROOT, "seeded", "RESULTS.json")
     results = json.load(open(res_path)) if os.path.exists(res_path) else {}
     sh("git -C /repo worktree remove --force %s" % WT)
     sh("rm -rf %s" % WT)
@@ -77,7 +77,7 @@ def main():
             json.dump(results, open(res_path, "w"), indent=1)
     finally:
         sh("git -C /repo worktree remove --force %s" % WT)
-        sh("rm -rf /tmp/verif_seed_out /tmp/verif_seed_evidence %s" % WT)
+        sh("rm -rf /tmp/verif_seed_out_%d /tmp/verif_seed_evidence_%d %s" % (os.getpid(), os.getpid(), WT))
     return 0
 
 
